@@ -1,6 +1,6 @@
 (* C13 — file, pipe and run modes show the same thing; run mode is transparent.  PARTIAL: the
    part a model can carry; pipes, threads, buffering and exit codes are explored, not proved. *)
-From WD Require Import Base Runner RunnerProofs Session SessionProofs Utf8 Utf8ProofsA Utf8ProofsB.
+From WD Require Import Base Runner RunnerProofs Session SessionProofs Utf8 Utf8ProofsA Utf8ProofsB Newlines NewlinesProofs.
 Open Scope N_scope.
 
 Theorem C13_spawn_transparent : forall args lib e,
@@ -41,6 +41,24 @@ Theorem C13_byte_chunking_irrelevant : forall c1 c2, List.concat c1 = List.conca
   lines_of (decode_chunks c1) = lines_of (decode_chunks c2).
 Proof. exact lines_chunking_irrelevant. Qed.
 Print Assumptions C13_byte_chunking_irrelevant.
+
+(* LINE ENDS: all three modes read with universal newlines (file: open(); run: os.fdopen(); pipe: sys.stdin
+   reconfigured with newline=None since the fix of D14).  Model/Newlines.v is CPython's incremental newline
+   decoder behind the UTF-8 decoder (compared with io.TextIOWrapper / IncrementalNewlineDecoder on every run by
+   harness/newline_corr.py): a CRLF pair split across two reads is ONE line end, a bare CR ends a line, and the
+   text read does not depend on the chunking *)
+Theorem C13_read_text_chunks_concat : forall bchunks,
+  read_text_chunks bchunks = translate (decode_utf8 (List.concat bchunks)).
+Proof. exact read_text_chunks_concat. Qed.
+Print Assumptions C13_read_text_chunks_concat.
+
+Theorem C13_read_lines_chunking_irrelevant : forall c1 c2, List.concat c1 = List.concat c2 ->
+  lines_of (read_text_chunks c1) = lines_of (read_text_chunks c2).
+Proof. exact read_lines_chunking_irrelevant. Qed.
+Print Assumptions C13_read_lines_chunking_irrelevant.
+
+Theorem C13_no_cr_survives : forall s, ~ In 13%N (translate s).
+Proof. exact translate_no_cr. Qed.
 
 (* text written by the program arrives as written *)
 Theorem C13_decode_encode : forall cps, Forall (fun c => is_scalar c = true) cps -> decode_utf8 (encode_utf8 cps) = cps.
